@@ -383,6 +383,13 @@ def lean_optdag(ctx, items):
             ctx.count("optdag:structurally-equal:with-inplace-nodes")
         if any(r["changed"]):
             ctx.count("optdag:structurally-equal:rewritten")
+        # the decidable side conditions of `optimizeDag_sound` (Props/C05Dag.lean), computed by the driver for this run
+        if r.get("good_run") and r.get("pure_lang"):
+            ctx.count("optdag:covered-by-optimizeDag_sound(side conditions hold, pure node language)")
+        elif r.get("good_run"):
+            ctx.count("optdag:outside-the-pure-node-language(in-place nodes, multi-output casts, nested graphs)")
+        ctx.count("optdag:side-conditions-of-optimizeDag_sound:" + ("hold" if r.get("good_run") else
+                  "fail:" + ("top-level-graph-inlined" if not r.get("no_top_inline") else "top-not-a-wellformed-graph" if not r.get("wf_top") else "later-pass")))
         ctx.extra["optdag_structurally_equal"] = ctx.extra.get("optdag_structurally_equal", 0) + 1
 
 
